@@ -61,11 +61,11 @@ bool vh_enum(const vh::Opts& o, uint64_t k, vh::Case& out) {
 rc::Gen<vh::Case> vh_gen(const vh::Opts&) {
   using namespace rc;
   int nforms = int(g_db.forms.size());
-  return gen::apply([](int mode, int form, std::vector<int> ch) {
-      vh::Case c; c.cfg = {mode ? 32 : 64, form, 0};
+  return gen::apply([](int mode, int form, int unsized, std::vector<int> ch) {
+      vh::Case c; c.cfg = {mode ? 32 : 64, form, unsized >= 80 ? 1 : 0};      // cfg[2] & 1: memory operands are given without a size (x86::ptr(...))
       vh::Op op; for (int v : ch) op.push_back(v);
       c.ops.push_back(op); return c; },
-    vh::irange<int>(0, 1), vh::irange<int>(0, nforms - 1),
+    vh::irange<int>(0, 1), vh::irange<int>(0, nforms - 1), vh::irange<int>(0, 99),
     gen::container<std::vector<int>>(size_t(kChoices), vh::irange<int>(0, 0x3fffffff)));
 }
 
@@ -101,6 +101,13 @@ void vh_run(const vh::Case& c, vh::Ctx& ctx) {
   if (f.is_apx()) { ctx.cls("skip_apx"); return; }
   xi::XInst x = xi::instantiate(f, mode, ch);
   if (!x.valid) { ctx.cls("skip_uninstantiable"); return; }
+  if (c.cfg.size() > 2 && (c.cfg[2] & 1)) {
+    // unsized memory operands: the assembler has to infer the size (or refuse an ambiguous one); the judges accept every DB form of the
+    // mnemonic that admits the operands as given
+    bool any = false;
+    for (xi::Opnd& o : x.ops) if (o.kind == xi::Opnd::kMem && o.mem.size_bits != 0) { o.mem.size_bits = 0; any = true; }
+    if (any) ctx.cls("unsized_memory_operand");
+  }
 
   InstId id = InstAPI::string_to_inst_id(mode == 64 ? Arch::kX64 : Arch::kX86, f.name.c_str(), f.name.size());
   if (id == 0) { ctx.cls("skip_unknown_mnemonic"); return; }
